@@ -628,6 +628,8 @@ func c01GenAPI(r *kit.Rand, i int) c01APICase {
 	nslots := r.Range(1, c01Slots)
 	// generator-side view of which keys each slot holds (only to aim operations)
 	var have [c01Slots][]string
+	// last value the generator assigned to a key of a slot (aiming aid only)
+	var cur [c01Slots]map[string]string
 	var c c01APICase
 	for s := 0; s < n; s++ {
 		st := c01Step{Slot: r.Intn(nslots), Name: kit.B(kit.Pick(r, c01Names)), Vals: c01GenVals(r)}
@@ -661,6 +663,25 @@ func c01GenAPI(r *kit.Rand, i int) c01APICase {
 		if r.Chance(0.1) {
 			nops = r.Range(4, 8)
 		}
+		if cur[st.Slot] == nil || st.Fresh {
+			cur[st.Slot] = map[string]string{}
+			for _, l := range st.Lit {
+				cur[st.Slot][string(l.K)] = string(l.V)
+			}
+		}
+		if h := have[st.Slot]; len(h) >= 2 && r.Chance(0.15) {
+			// "grow and shift": key a's value grows by x while its neighbour in
+			// first-seen order takes exactly x, both edited in place in the
+			// same step (values that spill over into a neighbouring buffer
+			// coincide with what the neighbour is supposed to become).
+			p := r.Intn(len(h) - 1)
+			a, b := h[p], h[p+1]
+			if va, ok := cur[st.Slot][a]; ok && a != b {
+				x := kit.Pick(r, []string{"2", "3", "x", "12", "0"})
+				st.Ops = append(st.Ops, c01Op{Op: 2, K: kit.B(a), V: kit.B(va + x)}, c01Op{Op: 2, K: kit.B(b), V: kit.B(x)})
+				cur[st.Slot][a], cur[st.Slot][b] = va+x, x
+			}
+		}
 		for j := 0; j < nops; j++ {
 			var op c01Op
 			switch x := r.Intn(100); {
@@ -675,6 +696,12 @@ func c01GenAPI(r *kit.Rand, i int) c01APICase {
 				op = c01Op{Op: 3, K: kit.B(aim()), File: r.Chance(0.75)}
 			}
 			st.Ops = append(st.Ops, op)
+			switch op.Op {
+			case 0, 2:
+				cur[st.Slot][string(op.K)] = string(op.V)
+			case 1:
+				delete(cur[st.Slot], string(op.K))
+			}
 		}
 		if r.Chance(0.1) {
 			// unique (unit,key) per case: the key carries the step number
@@ -788,12 +815,12 @@ func TestVerifC01(t *testing.T) {
 		Rule: "hand-written texts (set/change/delete/re-add chains, special values in rescaled and plain units, unit metadata, the recorded CR witness); " + rule,
 	}
 	text := kit.Class[c01TextCase]{
-		Name: "text-origin", Quick: 15000, Thorough: 300000, Gen: c01GenText,
+		Name: "text-origin", Quick: 45000, Thorough: 300000, Gen: c01GenText,
 		Check: c01CheckText, NonTrivial: c01TextNonTrivial, MinNonTrivial: 2000,
 		Rule: "1-50 lines from a line grammar (config set/delete/re-set over a 6-key pool plus fresh and exotic keys, unit lines, benchmark lines with integers, decimals, exponents, hex, 0, -0, ±Inf, NaN in rescaled and plain units, junk, blank, CRLF, rare CR-terminated values), 15% byte-mutated, read and streamed record by record into the writer; " + rule,
 	}
 	api := kit.Class[c01APICase]{
-		Name: "api-origin", Quick: 15000, Thorough: 300000, Gen: c01GenAPI,
+		Name: "api-origin", Quick: 45000, Thorough: 300000, Gen: c01GenAPI,
 		Check: c01CheckAPI, NonTrivial: c01APINonTrivial, MinNonTrivial: 2500,
 		Rule: "histories of 1-40 written results over 1-3 Result objects: fresh struct literals with file and internal keys, SetConfig(k,v), SetConfig(k,\"\"), in-place value edits, File flag flips in both directions, re-adds after deletion, measurements built raw or through benchunit.Tidy, unit-metadata records; " + rule,
 	}
